@@ -1,8 +1,8 @@
 #!/bin/bash
-# usage: seed_take.sh <Cxx> <suffix> <round>   copies /tmp/r6/out-Cxx to seeded/Cxx-<suffix>, confirms, runs own check
+# usage: seed_take.sh <Cxx> <suffix> <round>   copies /tmp/${RD:-r7}/out-Cxx to seeded/Cxx-<suffix>, confirms, runs own check
 P=$1; S=$2; R=$3
 D=/verif/seeded/$P-$S
-mkdir -p $D && cp /tmp/r6/out-$P/* $D/
+mkdir -p $D && cp /tmp/${RD:-r7}/out-$P/* $D/
 /verif/tools/seed_confirm.sh $P-$S $D | tee /tmp/confirm-$P-$S.json
 python3 - <<PY
 import json
